@@ -264,4 +264,149 @@ theorem pySlice_spec (n : Nat) (a b c : Option Int) (hc : c ≠ some 0) :
     cases a <;> cases b <;>
       simp only [adjustBound_none, adjustBound_some_down _ _ _ hneg] at this ⊢ <;> exact this
 
+/-! ## Corollaries -/
+
+/-- the slice length is `max 0 (ceil ((stop - start) / step))`, written with floor division:
+    `ceil (x / s) = (x + s - 1) / s` for `s > 0` -/
+theorem countUp_eq_ceil (start stop step : Int) (hs : 0 < step) :
+    countUp start stop step = ((stop - start + step - 1) / step).toNat := by
+  unfold countUp
+  have h : (stop - start + step - 1) / step = (stop - start - 1) / step + 1 := by
+    have : stop - start + step - 1 = (stop - start - 1) + 1 * step := by omega
+    rw [this, Int.add_mul_ediv_right _ _ (by omega)]
+  split
+  · rw [h]
+  · have : (stop - start + step - 1) / step < 1 := Int.ediv_lt_of_lt_mul hs (by omega)
+    omega
+
+theorem countDown_eq_ceil (start stop step : Int) (hs : step < 0) :
+    countDown start stop step = ((start - stop + (-step) - 1) / (-step)).toNat := by
+  unfold countDown
+  have h : (start - stop + (-step) - 1) / (-step) = (start - stop - 1) / (-step) + 1 := by
+    have : start - stop + (-step) - 1 = (start - stop - 1) + 1 * (-step) := by omega
+    rw [this, Int.add_mul_ediv_right _ _ (by omega)]
+  split
+  · rw [h]
+  · have : (start - stop + (-step) - 1) / (-step) < 1 := Int.ediv_lt_of_lt_mul (by omega) (by omega)
+    omega
+
+/-- zero step: `slice.indices` raises `ValueError` … -/
+theorem sliceIx_zero_step (n : Nat) (a b : Option Int) : adjust n ⟨a, b, some 0⟩ = none :=
+  adjust_zero n a b
+
+/-- every selected index is an index of the list -/
+theorem pySlice_lt (n : Nat) (a b c : Option Int) : ∀ i ∈ pySlice n a b c, i < n := by
+  intro i hi
+  unfold pySlice at hi
+  simp only at hi
+  split at hi
+  · exact List.mem_range.1 (List.mem_filter.1 hi).1
+  · exact List.mem_range.1 (List.mem_reverse.1 (List.mem_filter.1 hi).1)
+
+/-- the `k`-th selected index, `k < count`, is `start + k*step` -/
+theorem pySlice_getElem? (n : Nat) (a b c : Option Int) (hc : c ≠ some 0) (k : Nat) :
+    (pySlice n a b c)[k]? =
+      if k < (sliceIx n a b c).count
+      then some ((sliceIx n a b c).start + (k : Int) * (sliceIx n a b c).step).toNat else none := by
+  rw [pySlice_spec n a b c hc, indices, List.getElem?_map]
+  by_cases h : k < (sliceIx n a b c).count
+  · rw [List.getElem?_range h]; simp [h]
+  · rw [List.getElem?_eq_none (by simpa using h)]; simp [h]
+
+theorem pySlice_length (n : Nat) (a b c : Option Int) (hc : c ≠ some 0) :
+    (pySlice n a b c).length = (sliceIx n a b c).count := by
+  rw [pySlice_spec n a b c hc, indices]; simp
+
+/-- negative step: strictly decreasing positions -/
+theorem pySlice_descending (n : Nat) (a b c : Option Int) (h : c.getD 1 < 0) :
+    (pySlice n a b c).Pairwise (· > ·) := by
+  unfold pySlice
+  have : ¬ c.getD 1 > 0 := by omega
+  simp only [this, if_false]
+  apply List.Pairwise.filter
+  rw [List.pairwise_reverse]
+  exact List.pairwise_lt_range
+
+/-- `list[a:b:c]` of the reference list (`PyList.getSlice`) is the list of the elements at the
+    indexes `pySlice` selects; a zero step is the `ValueError` -/
+theorem getSlice_eq_pySlice {α : Type} (l : List α) (a b c : Option Int) :
+    getSlice l ⟨a, b, c⟩ =
+      if c = some 0 then .error .valueError
+      else .ok ((pySlice l.length a b c).filterMap (fun i => l[i]?)) := by
+  by_cases hc : c = some 0
+  · subst hc; simp [getSlice, adjust_zero]
+  · rw [if_neg hc, getSlice, adjust_eq_sliceIx _ _ _ _ hc, pySlice_spec _ _ _ _ hc]
+
+/-- no selected index is dropped by the `filterMap` above: as many elements as indexes -/
+theorem pySlice_filterMap_length {α : Type} (l : List α) (a b c : Option Int) :
+    ((pySlice l.length a b c).filterMap (fun i => l[i]?)).length = (pySlice l.length a b c).length := by
+  have h := pySlice_lt l.length a b c
+  generalize pySlice l.length a b c = is at h
+  induction is with
+  | nil => rfl
+  | cons i r ih =>
+    have hi : i < l.length := h i (by simp)
+    rw [List.filterMap_cons, List.getElem?_eq_getElem hi]
+    simp only [List.length_cons]
+    rw [ih (fun j hj => h j (by simp [hj]))]
+
+theorem filterMap_range_drop_take {α : Type} (l : List α) (S : Nat) : ∀ cnt : Nat,
+    ((List.range cnt).map (fun k => S + k)).filterMap (fun i => l[i]?) = (l.drop S).take cnt
+  | 0 => by simp
+  | cnt + 1 => by
+    rw [List.range_succ, List.map_append, List.filterMap_append, filterMap_range_drop_take l S cnt,
+      List.take_add_one, List.getElem?_drop]
+    cases h : l[S + cnt]? <;> simp [h]
+
+/-- step 1 (omitted): `l[a:b]` is `drop start` of `take stop` -/
+theorem pySlice_step_one {α : Type} (l : List α) (a b : Option Int) :
+    (pySlice l.length a b none).filterMap (fun i => l[i]?)
+      = (l.take (sliceIx l.length a b none).stop.toNat).drop (sliceIx l.length a b none).start.toNat := by
+  rw [pySlice_spec _ _ _ _ (by simp), indices]
+  have h1 := adjustBound_up_range (l.length : Int) 1 0 (by omega) (by omega) (by omega) a
+  have h2 := adjustBound_up_range (l.length : Int) 1 (l.length : Int) (by omega) (by omega) (by omega) b
+  simp only [sliceIx, Option.getD_none, show ¬ ((1 : Int) < 0) by omega, if_false, countUp] at *
+  generalize adjustBound (l.length : Int) 1 0 a = st at *
+  generalize adjustBound (l.length : Int) 1 (l.length : Int) b = sp at *
+  have hmap : ∀ cnt, (List.range cnt).map (fun (k : Nat) => (st + (k : Int) * 1).toNat)
+      = (List.range cnt).map (fun k => st.toNat + k) := by
+    intro cnt; apply List.map_congr_left; intro k _; omega
+  rw [hmap, filterMap_range_drop_take, List.drop_take]
+  congr 1
+  split <;> omega
+
+/-- `l[::-1]` selects every index, last first … -/
+theorem pySlice_rev_all (n : Nat) : pySlice n none none (some (-1)) = (List.range n).reverse := by
+  unfold pySlice
+  simp only [Option.getD_some, show ¬ ((-1 : Int) > 0) by omega, if_false]
+  rw [List.filter_eq_self]
+  intro i hi
+  have := List.mem_range.1 (List.mem_reverse.1 hi)
+  simp only [decide_eq_true_eq]
+  refine ⟨by omega, by omega, ?_⟩
+  rw [show (-(-1 : Int)) = 1 by decide, Int.emod_one]
+
+/-- … so `l[::-1]` is `reverse` -/
+theorem pySlice_reverse {α : Type} (l : List α) :
+    (pySlice l.length none none (some (-1))).filterMap (fun i => l[i]?) = l.reverse := by
+  rw [pySlice_rev_all, List.filterMap_reverse]
+  have := filterMap_range_drop_take l 0 l.length
+  simp only [Nat.zero_add, List.map_id', List.drop_zero, List.take_length] at this
+  rw [this]
+
+/-- `l[:]` is `l` -/
+theorem pySlice_all {α : Type} (l : List α) :
+    (pySlice l.length none none none).filterMap (fun i => l[i]?) = l := by
+  rw [pySlice_step_one]
+  simp [sliceIx, adjustBound]
+
+example : pySlice 5 (some (-4)) none (some 2) = [1, 3] := by decide
+example : sliceIx 5 (some (-4)) none (some 2) = ⟨1, 5, 2, 2⟩ := by decide
+example : pySlice 5 (some 9) (some (-9)) (some (-2)) = [4, 2, 0] := by decide
+example : sliceIx 5 (some 9) (some (-9)) (some (-2)) = ⟨4, -1, -2, 3⟩ := by decide
+example : getSlice [10, 11, 12, 13, 14] ⟨some 9, some (-9), some (-2)⟩ = .ok [14, 12, 10] := by
+  rw [getSlice_eq_pySlice, if_neg (by decide)]; exact congrArg _ (by decide)
+example : getSlice [10, 11, 12] ⟨none, none, some 0⟩ = .error .valueError := by
+  rw [getSlice_eq_pySlice, if_pos rfl]
+
 end Flatland.C14.Proofs
